@@ -30,6 +30,11 @@ type event struct {
 	val  uint64 // candidate value for concretisation events
 }
 
+type obsRec struct {
+	label string
+	v     interface{}
+}
+
 type pending struct {
 	events []event // prefix including the flipped last event
 	model  Model   // model satisfying the prefix (nil = unknown feasibility)
@@ -54,6 +59,7 @@ type PathSample struct {
 	Events   int               `json:"decisions"`
 	Model    map[string]uint64 `json:"assignment,omitempty"`
 	Observed []string          `json:"observed,omitempty"`
+	Trace    []string          `json:"trace,omitempty"` // rt.Observe values rendered under the assignment (compared with the native run)
 }
 
 type Stats struct {
@@ -88,6 +94,8 @@ type Exec struct {
 	model    Model
 	pathNo   int
 	observed []string
+	obsVals  []obsRec
+	render   func(v interface{}, m Model) string
 	fuel     int64
 	maxFuel  int64
 	depth    int
@@ -543,6 +551,7 @@ func (ex *Exec) runPath(p pending, run func()) {
 	ex.pos = 0
 	ex.model = p.model
 	ex.observed = ex.observed[:0]
+	ex.obsVals = ex.obsVals[:0]
 	ex.facts = map[int32]bool{}
 	ex.known = map[int32]uint64{}
 	ex.doms = map[int32]*domain{}
@@ -558,7 +567,13 @@ func (ex *Exec) runPath(p pending, run func()) {
 			s.End = end.reason + ": " + end.detail
 		}
 		if ex.model != nil {
-			s.Model = ex.modelNamed(ex.diversify(ex.model))
+			dm := ex.diversify(ex.model)
+			s.Model = ex.modelNamed(dm)
+			if ex.render != nil {
+				for _, o := range ex.obsVals {
+					s.Trace = append(s.Trace, o.label+"="+ex.render(o.v, dm))
+				}
+			}
 		}
 		ex.samples = append(ex.samples, s)
 	}
